@@ -4,6 +4,7 @@ import RisorModel.C04.FragCertOracle
 import RisorModel.C04.FunCertOracle
 import RisorModel.C04.CloCertOracle
 import RisorModel.C04.MultiVarOracle
+import RisorModel.C04.ObsOracle
 /-! Line-protocol front end of the C04 model.
   `stack <main|fn> <instruction text>` → `accept <max height> <n reachable>` | `reject <offset: reason>` | `error <decode problem>`
   `cert <main|fn> <instruction text>` → the accepted certificate itself (heights per slot)
@@ -11,7 +12,9 @@ import RisorModel.C04.MultiVarOracle
   `funcert <sexp> <globals> <id=…;ins=… per code object, joined by |>` → see FunCertOracle.lean (the certificates of the proved
       FUNCTION fragment on the real bytecode of every code object)
   `multi …`, `multicode …` → see MultiVarOracle.lean (multi-variable statements `a, _, c := e`: the tail the model of
-      compileMultiVar emits against the real one, what the real instructions leave behind, whole code objects) -/
+      compileMultiVar emits against the real one, what the real instructions leave behind, whole code objects)
+  `tmpl …`, `trace …` → see ObsOracle.lean (template strings with empty interpolations: compileString's code against the real
+      window; observed runs of one frame activation: the real heights against the model machine, the Spec `neutral`) -/
 namespace Risor.C04
 
 def handle : List String → String
@@ -44,6 +47,8 @@ def handle : List String → String
   | "funin" :: rest => handleFunIn rest
   | "multi" :: rest => MV.handleMulti rest
   | "multicode" :: rest => MV.handleMultiCode rest
+  | "tmpl" :: rest => Obs.handleTmpl rest
+  | "trace" :: rest => Obs.handleTrace rest
   | _ => "error\tunknown-request"
 
 end Risor.C04
